@@ -7,6 +7,10 @@
     R <conn> <client> <fromzone> <objzone> <kind> <log> | s=<eps> k=<eps> p=<0|1> oz=<zone|-> ts=<0|1> old=<n> bad=<n>
     D <conn> <from> <originzone> <objzone> <kind> | a=<0|1> s=<eps> p=<0|1> oz=<zone|-> ts=<0|1> old=<n> bad=<n> m=<ep>
     M <a> <b> <conn of a> <conn of b> | ma=<ep> mb=<ep>      both identities asked for their zone master (`specMasterPair`)
+    E <conn> <from> <originzone> <objzone> <method> <var> | a= s= p= oz= ts= old= bad= x= m=
+        one network step through a REAL cluster event handler; compared with `reRelay`, `specCase` with the origin of the wire message
+    P <objzone> <kind> <del> <target> | p= r= x=             the replay path; compared with `replaySends`, `specReplay`
+    H <method> <passesOrigin> <o|n> / H rows <k>             handler table extracted from clusterevents.cpp, compared with `handlers`
         one network step through the real MessageHandler; compared with the model's `deliver` (originOf, accept, relay)
   Output lines:
     MISMATCH line=<n> case=<k> op=<sent|skipped|persist|originzone|ts|old|bad|order> impl=<..> model=<..>
@@ -143,6 +147,15 @@ structure DSt where
   dOriginFromField : Nat := 0    -- FromZone taken from the originZone field (sender is a zone peer)
   seen : Std.HashSet UInt64 := {}
   nontrivial : Nat := 0
+  eSteps : Nat := 0              -- E lines: network steps through the real cluster event handlers
+  eProcessed : Nat := 0
+  eRelayed : Nat := 0            -- … that queued the event for somebody
+  eMethods : List String := []   -- methods seen processed AND relayed
+  pSteps : Nat := 0              -- P lines: the replay path
+  pPersisted : Nat := 0
+  pReplayed : Nat := 0
+  pDeleted : Nat := 0
+  hRows : Nat := 0               -- rows of the handler table extracted from the source
 
 /-- which guard decided for endpoint `e` of zone `cz` (for the branch histogram; replays the loop's `relayed`) -/
 def histZone (T : Topo) (self : Ep) (o : Origin) (m : Option Ep) (cz : Zone) (d : DSt) : DSt :=
@@ -370,6 +383,142 @@ def handle (d : DSt) (n : Nat) (line : String) : IO DSt := do
         return d
       | _, _, _, _, _, _, _, _, _, _ => IO.println s!"BADLINE line={n}"; return d
     | _, _ => IO.println s!"BADLINE line={n}"; return d
+  | "E" :: rest =>
+    let (pre, post) := splitBar rest
+    match d.topo, pre with
+    | some t, [conn, frm, ozf, oz, method, _var] =>
+      let connA := conn.toList.toArray
+      let ozf? : Option (Option Zone) := if ozf == "-" then some none else (parseNat? ozf).map some
+      let oz? : Option (Option Zone) := if oz == "-" then some none else (parseNat? oz).map some
+      -- `!`: the queued copies disagree on the field
+      let obsOz? : Option (Option (Option Zone)) := match kvOf post "oz" with
+        | some "-" => some (some none)
+        | some "!" => some none
+        | some s => (parseNat? s).map (fun z => some (some z))
+        | none => none
+      match parseNat? frm, ozf?, oz?, findHandler method, (kvOf post "a").bind parseNat?, (kvOf post "s").bind parseList,
+            (kvOf post "p").bind parseBool?, obsOz?, kvOf post "ts", kvOf post "old", kvOf post "bad" with
+      | some frm, some ozf, some oz, some h, some acc, some sent, some persist, some obsOz, some ts, some old, some bad =>
+        if connA.size != t.zoneOf.size then
+          IO.println s!"BADLINE line={n}"; return d
+        let connF := fun (_ : Ep) (e : Ep) => match connA[e]? with | some c => isConnCh c | none => false
+        let syncF := fun (_ : Ep) (e : Ep) => match connA[e]? with | some c => isSyncCh c | none => false
+        let T := t.topo connF syncF
+        let self := t.self
+        let obsMaster : Option Ep := (kvOf post "m").bind parseNat?
+        let msg : Msg := ⟨self, frm, ozf⟩
+        let mut d := { d with eSteps := d.eSteps + 1, steps := d.steps + 1 }
+        if acc == 1 then
+          -- the model's re-relay of the processed event
+          let agrees := fun (T : Topo) =>
+            let r := reRelay T h msg oz
+            sortNat (queued T self r) == sent && some r.originZone == (if sent.isEmpty then some r.originZone else obsOz) && (!r.persist || persist)
+          if !agrees T then
+            if (allOrders t).any (fun ord => agrees ({ t with order := ord }.topo connF syncF)) then
+              d := { d with orderFree := d.orderFree + 1 }
+            else
+              let r := reRelay T h msg oz
+              if sortNat (queued T self r) != sent then
+                IO.println s!"MISMATCH line={n} case={d.caseNo} op=event-sent method={method} impl={showList sent} model={showList (sortNat (queued T self r))}"
+                d := { d with mismatches := d.mismatches + 1 }
+              if !sent.isEmpty && some r.originZone != obsOz then
+                IO.println s!"MISMATCH line={n} case={d.caseNo} op=event-originzone method={method} impl={(kvOf post "oz").getD "?"} model={showOpt r.originZone}"
+                d := { d with mismatches := d.mismatches + 1 }
+              if r.persist && !persist then
+                IO.println s!"MISMATCH line={n} case={d.caseNo} op=event-persist method={method} impl=0 model=1"
+                d := { d with mismatches := d.mismatches + 1 }
+        else if !sent.isEmpty then
+          IO.println s!"MISMATCH line={n} case={d.caseNo} op=event-relayed-unprocessed method={method} impl={showList sent} model=-"
+          d := { d with mismatches := d.mismatches + 1 }
+        if ts != "1" || bad != "0" then
+          IO.println s!"MISMATCH line={n} case={d.caseNo} op=event-queue method={method} impl=ts:{ts},bad:{bad} model=ts:1,bad:0"
+          d := { d with mismatches := d.mismatches + 1 }
+        -- the property on what the REAL handler queued, with the origin the wire message defines.  A node that did not
+        -- process the event owes nothing (completeness clauses off); what it queued nevertheless must still be safe.
+        if acc == 1 || !sent.isEmpty then
+          let c : Case := ⟨self, originOf T msg, h.objZone oz, acc == 1⟩
+          let obsOzField : Option Zone := match obsOz with | some z => z | none => none
+          let o : Obs := { sent := sent, persist := persist, originZone := if sent.isEmpty then (originOf T msg).fromZone else obsOzField,
+                           extraCopies := (parseNat? old).getD 1, master := obsMaster }
+          let verdict := if !sent.isEmpty && obsOz.isNone then some Clause.origin_zone_copied else specCase maxDepth T c o
+          match verdict with
+          | some cl =>
+            if acc == 1 || cl != .forwarded_when_reachable then
+              IO.println s!"SPECFAIL line={n} case={d.caseNo} clause={cl.name}@{method}"
+              d := { d with specfails := d.specfails + 1 }
+          | none => pure ()
+          if sent.any (fun e => e == frm || (T.zoneOf frm != T.zoneOf self && T.zoneOf e == T.zoneOf frm)) then
+            IO.println s!"SPECFAIL line={n} case={d.caseNo} clause=second_hop_no_echo@{method}"
+            d := { d with specfails := d.specfails + 1 }
+        if connA.any isSyncCh then d := { d with syncingCases := d.syncingCases + 1 }
+        d := { d with eProcessed := d.eProcessed + (if acc == 1 then 1 else 0) }
+        if acc == 1 && !sent.isEmpty then
+          d := { d with eRelayed := d.eRelayed + 1, eMethods := if d.eMethods.contains method then d.eMethods else method :: d.eMethods }
+          let key := hash (d.topoTxt ++ "|E " ++ " ".intercalate pre)
+          if !d.seen.contains key then
+            d := { d with seen := d.seen.insert key, nontrivial := d.nontrivial + 1 }
+        return d
+      | _, _, _, _, _, _, _, _, _, _, _ => IO.println s!"BADLINE line={n}"; return d
+    | _, _ => IO.println s!"BADLINE line={n}"; return d
+  | "P" :: rest =>
+    let (pre, post) := splitBar rest
+    match d.topo, pre with
+    | some t, [oz, kind, del, target] =>
+      let oz? : Option (Option Zone) := if oz == "-" then some none else (parseNat? oz).map some
+      match oz?, parseBool? del, parseNat? target, (kvOf post "p").bind parseBool?, (kvOf post "r").bind parseNat?, (kvOf post "x").bind parseNat? with
+      | some oz, some del, some target, some persist, some replayed, some others =>
+        let self := t.self
+        -- the node sees nobody while it relays; then `target` connects
+        let T := t.topo (fun _ _ => false)
+        let ro : RecObj := if kind == "n" then .absent else if del then .deleted else .present oz
+        let mPersist := (relay T self Origin.loc oz true).persist
+        let mReplayed := if mPersist && replaySends T self ro target then 1 else 0
+        let mut d := { d with pSteps := d.pSteps + 1, steps := d.steps + 1 }
+        if mPersist != persist then
+          IO.println s!"MISMATCH line={n} case={d.caseNo} op=replay-persist impl={showBool persist} model={showBool mPersist}"
+          d := { d with mismatches := d.mismatches + 1 }
+        if mReplayed != replayed then
+          IO.println s!"MISMATCH line={n} case={d.caseNo} op=replay impl={replayed} model={mReplayed}"
+          d := { d with mismatches := d.mismatches + 1 }
+        if others != 0 then
+          IO.println s!"MISMATCH line={n} case={d.caseNo} op=replay-others impl={others} model=0"
+          d := { d with mismatches := d.mismatches + 1 }
+        match specReplay maxDepth T self (kind != "n") oz target (replayed != 0) with
+        | some cl =>
+          IO.println s!"SPECFAIL line={n} case={d.caseNo} clause={cl.name}"
+          d := { d with specfails := d.specfails + 1 }
+        | none => pure ()
+        d := { d with pPersisted := d.pPersisted + (if persist then 1 else 0), pReplayed := d.pReplayed + (if replayed != 0 then 1 else 0),
+                      pDeleted := d.pDeleted + (if del && persist then 1 else 0) }
+        if replayed != 0 then
+          let key := hash (d.topoTxt ++ "|P " ++ " ".intercalate pre)
+          if !d.seen.contains key then
+            d := { d with seen := d.seen.insert key, nontrivial := d.nontrivial + 1 }
+        return d
+      | _, _, _, _, _, _ => IO.println s!"BADLINE line={n}"; return d
+    | _, _ => IO.println s!"BADLINE line={n}"; return d
+  | "H" :: rest =>
+    -- a row of the handler table as the translator reads it from lib/icinga/clusterevents.cpp
+    match rest with
+    | [method, passes, sec] =>
+      let d := { d with hRows := d.hRows + 1 }
+      let impl := s!"{passes},{sec}"
+      match findHandler method with
+      | some h =>
+        let model := s!"{if h.passesOrigin then 1 else 0},{match h.sec with | .object => "o" | .none => "n"}"
+        if impl != model then
+          IO.println s!"MISMATCH line={n} case={d.caseNo} op=handler-table method={method} impl={impl} model={model}"
+          return { d with mismatches := d.mismatches + 1 }
+        return d
+      | none =>
+        IO.println s!"MISMATCH line={n} case={d.caseNo} op=handler-table method={method} impl={impl} model=absent"
+        return { d with mismatches := d.mismatches + 1 }
+    | ["rows", k] =>
+      if parseNat? k != some handlers.length || d.hRows != handlers.length then
+        IO.println s!"MISMATCH line={n} case={d.caseNo} op=handler-table method=* impl={k} model={handlers.length}"
+        return { d with mismatches := d.mismatches + 1 }
+      return d
+    | _ => IO.println s!"BADLINE line={n}"; return d
   | _ => IO.println s!"BADLINE line={n}"; return d
 
 /-! ### network simulation (`sim`) -/
@@ -474,4 +623,4 @@ def main (args : List String) : IO Unit := do
     IO.println s!"SIMSTATS topologies={st.topos} runs={st.runs} deliveries={st.deliveries} fails={st.fails} complete_checked={st.complete} incomplete={st.incomplete} beyond_scope_topologies={st.beyondScope} beyond_scope_duplicates={st.beyondScopeDups} max_processed={st.maxProcessed} nontrivial={st.nontrivial}"
   | _ =>
     let d ← foldLines stdin handle ({} : DSt)
-    IO.println s!"STATS cases={d.caseNo} steps={d.steps} nontrivial={d.nontrivial} sends={d.sends} skips={d.skips} persisted={d.persisted} no_target={d.noTarget} b_self={d.bSelf} b_disconnected={d.bDisc} b_second_endpoint={d.bRelayed} b_origin_client={d.bClient} b_origin_zone={d.bFromZone} b_not_master={d.bMaster} b_sent={d.bSent} unrelated_zone={d.unrelated} global_object={d.globalObj} as_master={d.masterCases} origin_zone_set={d.originZoneSet} newest_of_two={d.twoConn} net_steps={d.dSteps} net_accepted={d.dAccepted} net_discarded={d.dDiscarded} net_origin_from_field={d.dOriginFromField} order_free={d.orderFree} syncing_cases={d.syncingCases} master_pairs={d.masterPairs} parent_chains={d.parentChains} mismatches={d.mismatches} specfails={d.specfails}"
+    IO.println s!"STATS cases={d.caseNo} steps={d.steps} nontrivial={d.nontrivial} sends={d.sends} skips={d.skips} persisted={d.persisted} no_target={d.noTarget} b_self={d.bSelf} b_disconnected={d.bDisc} b_second_endpoint={d.bRelayed} b_origin_client={d.bClient} b_origin_zone={d.bFromZone} b_not_master={d.bMaster} b_sent={d.bSent} unrelated_zone={d.unrelated} global_object={d.globalObj} as_master={d.masterCases} origin_zone_set={d.originZoneSet} newest_of_two={d.twoConn} net_steps={d.dSteps} net_accepted={d.dAccepted} net_discarded={d.dDiscarded} net_origin_from_field={d.dOriginFromField} order_free={d.orderFree} syncing_cases={d.syncingCases} master_pairs={d.masterPairs} parent_chains={d.parentChains} event_steps={d.eSteps} event_processed={d.eProcessed} event_relayed={d.eRelayed} event_methods_relayed={d.eMethods.length} replay_steps={d.pSteps} replay_persisted={d.pPersisted} replay_replayed={d.pReplayed} replay_deleted_persisted={d.pDeleted} handler_rows={d.hRows} mismatches={d.mismatches} specfails={d.specfails}"
